@@ -6,6 +6,8 @@ pub mod c01;
 pub mod c02;
 pub mod c03;
 pub mod c04;
+pub mod c05;
+pub mod c06;
 
 pub struct Prop {
     pub id: &'static str,
@@ -20,6 +22,8 @@ pub fn all() -> Vec<Prop> {
         Prop { id: "C02", level: "exploration", run: c02::run, replay: c02::replay },
         Prop { id: "C03", level: "exploration", run: c03::run, replay: c03::replay },
         Prop { id: "C04", level: "exploration", run: c04::run, replay: c04::replay },
+        Prop { id: "C05", level: "exploration", run: c05::run, replay: c05::replay },
+        Prop { id: "C06", level: "exploration", run: c06::run, replay: c06::replay },
     ]
 }
 
